@@ -358,7 +358,10 @@ let scale_case id c =
       let r = List.hd (args obs.(i)) in
       (match tag r with
        | "panic" -> propfail id (here ^ " the operation panicked inside the tree code")
-       | "hang" -> propfail id (here ^ " an operation of this case does not terminate")
+       | "hang" ->
+           let k = (match args r with x :: _ -> int_of_sx x | [] -> i) in
+           propfail id (Printf.sprintf "op#%d/%d %s does not terminate" k nops (if k >= 0 && k < nops then string_of_sx ops.(k) else "?"))
+       | "cycle" -> propfail id (here ^ " the forward iteration over the tree does not reach Limit after count+1 steps (the links form a cycle); the operation was not started")
        | _ -> ());
       let a = Array.of_list (List.map int_of_sx (args o)) in
       let ra k = int_of_sx (List.nth (args r) k) in
